@@ -102,7 +102,29 @@ def decode_ok(line):
 
 def short(s, n=300):
     s = str(s)
+    if s.startswith('Ok(x') and len(s) > n:
+        try:
+            return 'Ok(<emitted text, %d bytes, sha256 %s>)' % ((len(s) - 5) // 2, hashlib.sha256(s.encode()).hexdigest()[:12])
+        except Exception:
+            pass
     return s if len(s) <= n else s[:n] + '...'
+
+
+def textdiff(x, y, limit=12):
+    """First differing lines of two Ok(x<hex>) results, for the replay file."""
+    if not (x and y and x.startswith('Ok(x') and y.startswith('Ok(x')):
+        return None
+    import difflib
+    a, b = decode_ok(x).split('\n'), decode_ok(y).split('\n')
+    return [l for l in difflib.unified_diff(a, b, 'implementation', 'model', lineterm='', n=0)][:limit]
+
+
+def disagreement(kind, src, x, y):
+    d = dict(kind=kind, src=src, impl=short(x), model=short(y))
+    td = textdiff(x, y)
+    if td:
+        d['diff'] = td
+    return d
 
 
 def grammar_batch(ctx, n, **kw):
@@ -280,7 +302,7 @@ def check_C07(ctx):
         if k not in ('Ok',) and not k.startswith('Err:'):
             res.failures.append(dict(kind='generate-not-total', src=s, impl=short(x), expected='Ok(..) or Err(..)', label=label))
         elif y is not None and x != y:
-            res.disagreements.append(dict(kind='generate', src=s, impl=short(x), model=short(y)))
+            res.disagreements.append(disagreement('generate', s, x, y))
     res.extra['result_kinds'] = kinds
     # child processes with a watchdog (aborts / stack overflows / hangs are invisible to catch_unwind)
     sub = srcs[:ctx.n(40, 400)] + big
@@ -367,7 +389,7 @@ def check_C09(ctx):
             if x != want:
                 res.failures.append(dict(kind='parse-error-not-exact', src=s, impl=short(x), expected=want, label=label))
         if y is not None and x != y and not any(f.get('src') == s for f in res.failures[-1:]):
-            res.disagreements.append(dict(kind='generate', src=s, impl=short(x), model=short(y)))
+            res.disagreements.append(disagreement('generate', s, x, y))
     res.extra['result_kinds'] = kinds
     # parser.rs against parser.kiki: the grammar the tables were generated from is the published one
     res.extra['parser_rs_check'] = oracles.parser_rs_selfcheck(vlib.REPO)
@@ -404,7 +426,7 @@ def check_C10(ctx):
         if verdict is not None:
             res.failures.append(dict(kind='validation-' + verdict[0], src=s, impl=short(x), expected=verdict[1], label=label))
         elif y is not None and x != y:
-            res.disagreements.append(dict(kind='generate', src=s, impl=short(x), model=short(y)))
+            res.disagreements.append(disagreement('generate', s, x, y))
     res.extra['result_kinds'] = kinds_hist
     res.extra['injected_kinds'] = inj_hist
     return res
@@ -422,7 +444,7 @@ def check_C15(ctx):
     texts = []
     for s, x, y in zip(srcs, r, m):
         if y is not None and x != y:
-            res.disagreements.append(dict(kind='generate', src=s, impl=short(x), model=short(y)))
+            res.disagreements.append(disagreement('generate', s, x, y))
         if not x.startswith('Ok(x'):
             res.evaluations += 1
             continue
@@ -506,7 +528,7 @@ def check_C16(ctx):
             continue
         for s, x, y in ((a, xa, m[2 * i]), (b, xb, m[2 * i + 1])):
             if y is not None and x != y:
-                res.disagreements.append(dict(kind='generate', src=s, impl=short(x), model=short(y)))
+                res.disagreements.append(disagreement('generate', s, x, y))
     return res
 
 
@@ -572,7 +594,7 @@ def check_C12(ctx):
                 res.failures.append(dict(kind='attributes-not-verbatim', src=s, impl=short(bad), expected='attributes verbatim before the matching type'))
                 continue
         if y is not None and x != y:
-            res.disagreements.append(dict(kind='generate', src=s, impl=short(x), model=short(y)))
+            res.disagreements.append(disagreement('generate', s, x, y))
     return res
 
 
@@ -608,7 +630,7 @@ def check_C13(ctx):
                 res.failures.append(dict(kind='payload-type-not-faithful', src=s, impl=short(bad), expected='declared type token-for-token at every use site'))
                 continue
         if y is not None and x != y:
-            res.disagreements.append(dict(kind='generate', src=s, impl=short(x), model=short(y)))
+            res.disagreements.append(disagreement('generate', s, x, y))
     return res
 
 
